@@ -9,6 +9,7 @@ Process classes are run against the model event by event.
 import random
 
 from props import fsm_common as FC
+from props import state_tie as ST
 
 PID = 'C10'
 GENERATORS = FC.GENERATORS
@@ -183,6 +184,7 @@ def run(ctx):
     deep = (not ctx.quick) or bool(changed)
 
     ok, msg = FC.generate_all(ctx)
+    sg = ST.state_generate(ctx)          # Gen/StateGen.v from the FSM method bodies of pl/state.py
     proofs = {'ok': False, 'failing': 'translator', 'log': msg}
     if ok:
         proofs = ctx.coq_props()
@@ -242,7 +244,9 @@ def run(ctx):
                    {'source': 'correspondence', 'case': cases[0]})
 
     # ---- proofs -----------------------------------------------------------------
-    if not proofs['ok'] and not hits:
+    # source tie of the life-cycle methods (translation + proof + sweep)
+    _tie, reported = ST.state_validate(ctx, sg, proofs, bool(hits), PID)
+    if not proofs['ok'] and not hits and not reported:
         ctx.broken('theorem/file %s' % proofs['failing'], proofs['log'],
                    {'source': 'proof', 'theorem': proofs['failing']})
 
